@@ -479,6 +479,10 @@ NEUTRAL_UNRECOGNISED = {
     # (same primitive as a template for the preamble's code lists: R06.2 proves the run reservation, the emission grammar of C02 /
     # C09 does not know the primitive - exit 2 there)
     "C09j/refactor1.diff": "CdnsEncoder::write_array<T> for opcodes / rr_types / vlan_ids",
+    # a process-wide cache of rendered addresses behind a mutex, copied out while locked: R20.1 accepts the guarded static; the
+    # inet_ntop call moved into the cache's worker while the test of the address length stayed in the caller, and R03.6 (which
+    # looks for the test in the function that calls inet_ntop) finds no call site it can decide - C03 exits 2
+    "C20j/refactor1.diff": "mutex-guarded cache of rendered IP addresses in get_readable_ip_address",
     # a look-aside of the last address and its index, validated by `index < table.size() && address == last` and parked out of
     # range by clear(): whether a remembered index still addresses its entry is a question about histories - R02.6 / R11.6 exit 2
     "C12j/refactor1.diff": "look-aside of the last IP address and its table index in CdnsBlock",
